@@ -191,6 +191,17 @@ func checkPoolValid(node *kit.Node, L *refl.Ledger, salt uint64) (v1 []types.Tra
 			return v1, v2, serr
 		}
 	}
+	// "stays retrievable": what is listed is found by id
+	for _, t := range v1 {
+		if g, ok := node.CM.PoolTransaction(t.ID()); !ok || g.ID() != t.ID() {
+			return v1, v2, fmt.Errorf("pool lists v1 transaction %v but the lookup by id does not return it", t.ID())
+		}
+	}
+	for _, t := range v2 {
+		if g, ok := node.CM.V2PoolTransaction(t.ID()); !ok || g.ID() != t.ID() {
+			return v1, v2, fmt.Errorf("pool lists v2 transaction %v but the lookup by id does not return it", t.ID())
+		}
+	}
 	// a block assembled from the reported contents on top of the tip
 	useV1, useV2 := v1, v2
 	if L.Height()+1 < L.State.Network.HardforkV2.AllowHeight {
